@@ -54,7 +54,7 @@ RuleNames == {
     "C13.AcceptReturnsMatched", "C13.AcceptCallOrder", "C13.PairOnce", "C13.ReleaseOnAbandon",
     "C18.NagleHold", "C18.NoHoldWhenOff", "C18.NagleDrain",
     "C11.EmitWellFormed", "C11.EmitConnId",
-    "C14.NeverAboveLink", "C14.OrdinaryWithinProven", "C14.OneProbe", "C14.Converges", "C14.LogProbes",
+    "C14.NeverAboveLink", "C14.OrdinaryWithinProven", "C14.OneProbe", "C14.Converges", "C14.LogProbes", "C14.CeilingOnlyByFailure",
     "C17.FinSeq", "C17.FinAfterData", "C17.NothingAfterFin", "C17.PeerFinInOrder", "C17.FinAnswered",
     "C17.ResetAborts", "C17.ResetNoReply", "C17.SynAckForm", "C17.SynAckRepeats", "C17.Transition", "C17.HandshakeGate",
     "C19.TxBounded", "C19.WriteNotStuck" }
@@ -614,6 +614,10 @@ Poll(r) ==
                                       r.t_rtx >= 0>>,
                   <<"C06.RtoFires", (SentUnacked(e) \/ FinUnacked(e)) /\ r.t_rtx >= 0 /\ r.t_rtx # e.tRtx, TRUE>>,
                   <<"C06.RtoRange", TRUE, R_C06_RtoRange(r.rto)>>,
+                  \* C14 "settles ... on the largest payload size that fits": the search ceiling comes down only on evidence that a
+                  \* size does not fit - a probe refused by the local interface or a transmitted probe that expired - not because a
+                  \* probe was put back for lack of window
+                  <<"C14.CeilingOnlyByFailure", e.codeMaxSs > 0 /\ r.max_ss < e.codeMaxSs, e.popSince \in {"emsgsize", "expired"}>>,
                   \* C10 "what one connection buffers stays bounded by its configured sizes times the maximum datagram size"
                   \* (16384: the socket's datagram read buffer)
                   <<"C10.BoundedBuffers", TRUE, /\ r.rx_parked <= Slots(e) * 16384
@@ -626,7 +630,7 @@ Poll(r) ==
                                           /\ e.probeOut < 0 /\ ~e.probeQ /\ ~r.pending /\ r.ring_len > 0,
                                          ~(r.ring_len > r.segmented /\ r.segmented < r.pwnd)>> })
             /\ eps' = [eps EXCEPT ![k] = [e EXCEPT !.state = r.state, !.tRtx = r.t_rtx, !.tAck = r.t_ack,
-                                                   !.trans = [@ EXCEPT !.on = FALSE], !.segd = r.segmented,
+                                                   !.trans = [@ EXCEPT !.on = FALSE], !.segd = r.segmented, !.popSince = "",
                                                    !.codeMss = r.mss, !.codeMaxSs = r.max_ss,
                                                    !.idleArmed = IF ~SentUnacked(e) /\ ~FinUnacked(e) THEN r.t_rtx
                                                                  ELSE IF @ = r.t_rtx THEN @ ELSE -1,
@@ -789,7 +793,8 @@ Next ==
               (LET k == Key(r) IN
                /\ UNCHANGED <<run, now, meta, sendIdx, app, infl, sk, pairs, last>> /\ NoJudge
                /\ IF ~Live(k) THEN UNCHANGED eps
-                  ELSE eps' = [eps EXCEPT ![k] = [ProbePopped(@, r.seq, r.why = "expired") EXCEPT !.popWhy = r.why]])
+                  ELSE eps' = [eps EXCEPT ![k] = [ProbePopped(@, r.seq, r.why = "expired") EXCEPT !.popWhy = r.why,
+                                                       !.popSince = IF @ \in {"emsgsize", "expired"} THEN @ ELSE r.why]])
          [] r.ev = "conn_new"  -> ConnNew(r)
          [] r.ev = "dying"     -> Dying(r)
          [] r.ev = "end"       -> End(r)
